@@ -79,6 +79,7 @@ def run(tier, seed, replay=None):
     if not chk.builds(model=True, harness=True):
         return chk.finish()
     chk.proofs()
+    chk.proofs("PlanUnitsBuild")     # the factory's grouping of precedence relations into plan units never indexes out of range; units = connected components
     rng = random.Random(seed * 1009 + 16)
     blocks, meta = [], {}
     settings = {"iterations": 40, "duration_ms": 1500, "runs": 1, "starts": 1, "output": 0}
